@@ -16,6 +16,16 @@ class _Meta(type(_dt.datetime)):
     pass
 
 
+LOCAL_OFFSET = _dt.timedelta(0)  # UTC offset of the harness' "local zone" (naive now())
+
+
+def _local_offset() -> _dt.timedelta:
+    from asyncio import events
+
+    loop = events._get_running_loop()
+    return getattr(loop, "local_offset", None) or LOCAL_OFFSET
+
+
 class FakeDateTime(_dt.datetime):
     _source: Optional[Callable[[], _dt.datetime]] = None
 
@@ -28,7 +38,7 @@ class FakeDateTime(_dt.datetime):
     def now(cls, tz=None):  # type: ignore[override]
         n = cls._utc()
         if tz is None:
-            return n.replace(tzinfo=None)
+            return (n + _local_offset()).replace(tzinfo=None)
         return n.astimezone(tz)
 
     @classmethod
@@ -36,9 +46,14 @@ class FakeDateTime(_dt.datetime):
         return cls._utc().replace(tzinfo=None)
 
 
-def install(source: Callable[[], _dt.datetime]) -> None:
-    """Patch taskiq.cli.scheduler.run.datetime; `source()` returns aware UTC."""
+def install(source: Callable[[], _dt.datetime], local_offset: Optional[_dt.timedelta] = None) -> None:
+    """Patch taskiq.cli.scheduler.run.datetime; `source()` returns aware UTC.
+
+    local_offset: what naive datetime.now() is ahead of UTC (the process' local zone)."""
     import taskiq.cli.scheduler.run as run
+
+    global LOCAL_OFFSET
+    LOCAL_OFFSET = local_offset or _dt.timedelta(0)
 
     FakeDateTime._source = staticmethod(source)  # type: ignore[assignment]
     run.datetime = FakeDateTime  # type: ignore[attr-defined]
@@ -47,5 +62,7 @@ def install(source: Callable[[], _dt.datetime]) -> None:
 def uninstall() -> None:
     import taskiq.cli.scheduler.run as run
 
+    global LOCAL_OFFSET
+    LOCAL_OFFSET = _dt.timedelta(0)
     run.datetime = _dt.datetime  # type: ignore[attr-defined]
     FakeDateTime._source = None
